@@ -28,15 +28,26 @@ def r13_3_escape(ctx):
     singles = [chr(c) for c in list(range(0, 0x180)) + [0x7FF, 0x800, 0x2028, 0x2029, 0xFFFD, 0xFFFF, 0x10000, 0x1F600, 0x10FFFF]]
     special = ['"', "\\", "\n", "\r", "\t", "/", ";", " ", "x", "0", "é", "😀", "\x00", "\x7f", "\x80", "\xff", "n", "'"]
     small = ['"', "\\", "/", "n", "x", "\n"]
-    cases = list(singles) + ["".join(p) for p in itertools.product(special, repeat=2)] + ["".join(p) for p in itertools.product(small, repeat=3)] + ["", "//", "a//b", "a;b", "\\x41", "\\n", "C:\\new", 'say "hi"', "tab\there", "\\", "\\\\", '\\"']
+    cases = list(singles) + ["".join(p) for p in itertools.product(special, repeat=2)] + ["".join(p) for p in itertools.product(small, repeat=3)] + ["", "//", "a//b", "a;b", "\\x41", "\\n", "C:\\new", 'say "hi"', "tab\there", "\\", "\\\\", '\\"', "\udcff", "a\ud800b", "\udc80\udcfe"]
     if ctx.tier == "thorough":
         cases += [chr(c) for c in range(0x180, 0x3000, 7)] + ["".join(p) for p in itertools.product(small, repeat=4)]
     bad = []
     for s in cases:
         try:
+            s.encode("utf-8")
+            encodable = True
+        except UnicodeEncodeError:
+            encodable = False  # a lone surrogate: the string has no UTF-8 encoding, so there are no bytes to hand over
+        try:
             val, _ = run_function(f.node, {"s": s}, lambda e, me: (_ for _ in ()).throw(Unknown()), f.fq)
         except Raised as r:
-            bad.append((s, f"raises {r.exc_text[:40]}"))
+            if encodable:
+                bad.append((s, f"raises {r.exc_text[:40]}"))
+            else:
+                ctx.instances["R13.3"] = ctx.instances.get("R13.3", 0) + 1
+            continue
+        if not encodable:
+            bad.append((s, f"emits `{val}` for a string that has no UTF-8 encoding (lone surrogate); it must be refused"))
             continue
         problem = None
         if not isinstance(val, str):
@@ -72,9 +83,9 @@ def r13_2_validators(ctx):
     ctx.rule("R13.2", "validators accept exactly the well-formed literals: base16/base32/base64 acceptance equals the RFC 4648 reference on all short strings over alphabets that include padding, out-of-alphabet characters and a line break; Int accepts exactly Python ints in [0, 2^64)")
     tmod = ctx.model.module("pyteal.types")
     for vname, ref, alphabet, maxlen, extra in (
-        ("valid_base16", TL.valid_b16, ["0", "a", "F", "g", "x", "\n", " "], 4, ["0x00", "ABCDEF", "abcde", "AbCdEf01"]),
-        ("valid_base64", TL.valid_b64, ["A", "z", "9", "+", "/", "=", "\n", "-"], 4, ["Zm9v\n", "Zm9v", "Zm8=", "Zg==", "Zg=", "Zm9vYg==", "Zm9vYmE=", "Zm9vYmFy", "====", "Zm9v=", "\nZm9v", "Zm 9v"]),
-        ("valid_base32", TL.valid_b32, ["A", "7", "2", "=", "a", "1", "\n"], 4, ["MZXW6===", "MZXW6", "MZXW6YQ=", "MZXW6YQ", "MZXW6YTB", "MY======", "MY", "MZXQ====", "MZXQ", "M", "MZX", "MZXW6Y", "MZXW6===\n", "MY=====", "MY=======", "ME======ME", "mzxw6ytb", "MZXW6YTBmzxw6ytb", "MZXW6YTBMZXW6YTB", "MZXW6YTBMZ"]),
+        ("valid_base16", TL.valid_b16, ["0", "a", "F", "g", "x", "\n", " ", "\u0663", "\uff21"], 4, ["0x00", "ABCDEF", "abcde", "AbCdEf01"]),
+        ("valid_base64", TL.valid_b64, ["A", "z", "9", "+", "/", "=", "\n", "-", "\u0663"], 4, ["Zm9v\n", "Zm9v", "Zm8=", "Zg==", "Zg=", "Zm9vYg==", "Zm9vYmE=", "Zm9vYmFy", "====", "Zm9v=", "\nZm9v", "Zm 9v"]),
+        ("valid_base32", TL.valid_b32, ["A", "7", "2", "=", "a", "1", "\n", "\u0662"], 4, ["MZXW6===", "MZXW6", "MZXW6YQ=", "MZXW6YQ", "MZXW6YTB", "MY======", "MY", "MZXQ====", "MZXQ", "M", "MZX", "MZXW6Y", "MZXW6===\n", "MY=====", "MY=======", "ME======ME", "mzxw6ytb", "MZXW6YTBmzxw6ytb", "MZXW6YTBMZXW6YTB", "MZXW6YTBMZ"]),
     ):
         f = ctx.model.find_func(vname, "pyteal.types")
         ctx.analysed(f.fq)
@@ -265,6 +276,7 @@ def run(ctx):
     r13_5_abi_text_setters(ctx)
     from rules import c12 as _c12
 
+    _c12.r12_4_index_range(ctx)  # ... also for the 257th distinct literal (shared with C12)
     _c12.r12_1_sites(ctx)  # with assembleConstants the literal is read back by PyTeal itself: the bytes pushed are the bytes the literal denotes (shared with C12)
     return (
         "Abstract evaluation of escapeStr, the literal validators and the Bytes/Int/MethodSignature constructors+lowerings on systematically generated literals, each result read back "
